@@ -27,3 +27,13 @@ Definition star_float (maxd bias thr : float) (work : bool) (cthr : float) (iter
                      (fun s => PrimFloat.ltb (fdist s goal) thr) (fun s => fdist s goal) goal (0, 0) bias (fun card => nth card ks O)
                      starts iters tape samples in
   [flat_nodes l; flat_star_report rep].
+
+(* several solve() calls on one planner: RRTSN ..., each call with its own iteration count, tape and samples *)
+From OmplV Require Import RrtStarCalls.
+Definition star_float_calls (maxd bias thr : float) (work : bool) (cthr : float) (ks : list nat) (walls : list (float * float * float))
+    (starts : list F2) (goal : F2) (calls : list (nat * list float * list F2)) : list (list float) :=
+  let '(s, reps) := star_solves F2 float fdist PrimFloat.ltb PrimFloat.add 0 (if work then work_cost else fdist) (negb work)
+                     (fun c => PrimFloat.ltb c cthr) (steer_f maxd) maxd (wall_mv walls)
+                     (fun s => PrimFloat.ltb (fdist s goal) thr) (fun s => fdist s goal) goal (0, 0) bias (fun card => nth card ks O)
+                     starts calls in
+  flat_nodes (nodes F2 float s) :: map flat_star_report reps.
